@@ -175,11 +175,14 @@ fn label_addr(l: &str) -> SocketAddr {
         "ip6" => "[2001:db8::66]:40003".parse().unwrap(),
         // an IPv6 address whose low 32 bits are ipA's (the deprecated "IPv4-compatible" form ::a.b.c.d): another host all the same
         "ip6c" => "[::203.0.113.10]:40004".parse().unwrap(),
+        // two IPv4 clients as a dual-stack socket / a TCP6 balancer reports them (IPv4-mapped IPv6 addresses): two different clients
+        "ip4m" => "[::ffff:198.51.100.77]:40005".parse().unwrap(),
+        "ip4n" => "[::ffff:192.0.2.33]:40006".parse().unwrap(),
         _ => "192.0.2.99:40009".parse().unwrap(),
     }
 }
 fn addr_label(a: &SocketAddr) -> String {
-    for l in ["ipA", "ipA2", "ipB", "ip6", "ip6c"] {
+    for l in ["ipA", "ipA2", "ipB", "ip6", "ip6c", "ip4m", "ip4n"] {
         if label_addr(l) == *a {
             return l.to_string();
         }
@@ -309,7 +312,8 @@ async fn run_c15(sc: &Value) -> Value {
 // ---------------------------------------------------------------------------------------------
 async fn park(stage: &str, port: u16, proxied: bool) -> Option<Tcp> {
     let mut t = Tcp::connect(SocketAddr::new("127.0.0.1".parse().unwrap(), port), None).await.ok()?;
-    let hdr = proxy_v1(label_addr("ipB"), format!("10.0.0.1:{port}").parse().unwrap());
+    // "flood-mapped": the flooding client is an IPv4 client reported in IPv4-mapped form
+    let hdr = proxy_v1(label_addr(if stage == "flood-mapped" { "ip4m" } else { "ipB" }), format!("[2001:db8::1]:{port}").parse::<SocketAddr>().ok().filter(|_| stage == "flood-mapped").unwrap_or(format!("10.0.0.1:{port}").parse().unwrap()));
     match stage {
         "pre-header" => {}
         "in-header" => {
@@ -334,7 +338,7 @@ async fn park(stage: &str, port: u16, proxied: bool) -> Option<Tcp> {
                     let _ = tokio::io::AsyncWriteExt::shutdown(&mut t.s).await;
                 }
                 // a flood from ONE announced source address: more connections than the limiter allows for it
-                "flood" => {
+                "flood" | "flood-mapped" => {
                     for _ in 0..6 {
                         if let Ok(mut f) = Tcp::connect(SocketAddr::new("127.0.0.1".parse().unwrap(), port), None).await {
                             if proxied {
@@ -395,16 +399,18 @@ async fn park_unread(port: u16, proxied: bool) -> Option<Tcp> {
 }
 
 async fn good_client(port: u16, proxied: bool, wait_ms: u64) -> (String, u64) {
-    good_client_kind(port, proxied, wait_ms, "status").await
+    good_client_kind(port, proxied, wait_ms, "status", "ipA").await
 }
 
 /// kind "login": the well-behaved client is a player ("Victim") who logs in completely and is transferred.
-async fn good_client_kind(port: u16, proxied: bool, wait_ms: u64, kind: &str) -> (String, u64) {
+async fn good_client_kind(port: u16, proxied: bool, wait_ms: u64, kind: &str, src: &str) -> (String, u64) {
     let started = Instant::now();
     let mut outcome = "connect-error".to_string();
     if let Ok(mut t) = Tcp::connect(SocketAddr::new("127.0.0.1".parse().unwrap(), port), None).await {
         if proxied {
-            let _ = t.send_raw(&proxy_v1(label_addr("ipA"), format!("10.0.0.1:{port}").parse().unwrap())).await;
+            let from = label_addr(src);
+            let dst: SocketAddr = if from.is_ipv4() { format!("10.0.0.1:{port}").parse().unwrap() } else { format!("[2001:db8::1]:{port}").parse().unwrap() };
+            let _ = t.send_raw(&proxy_v1(from, dst)).await;
         }
         if kind == "login" {
             let o = login(&mut t, 2, "Victim", 77, None, "success", Duration::from_millis(wait_ms)).await;
@@ -582,7 +588,7 @@ async fn run_c16(sc: &Value) -> Value {
     }
     tokio::time::sleep(Duration::from_millis(200)).await;
     let good_kind = sc["goodKind"].as_str().unwrap_or("status").to_string();
-    let (outcome, latency) = if sc["cfg"]["bigStatus"].as_bool().unwrap_or(false) { ("served".to_string(), 0) } else { good_client_kind(run.port, proxied, 4000, &good_kind).await };
+    let (outcome, latency) = if sc["cfg"]["bigStatus"].as_bool().unwrap_or(false) { ("served".to_string(), 0) } else { good_client_kind(run.port, proxied, 4000, &good_kind, sc["goodSrc"].as_str().unwrap_or("ipA")).await };
     // a second well-behaved client after a quiet period in which the server gave up on the parked ones (their deadline passed)
     let timeout_ms = sc["cfg"]["timeoutMs"].as_u64().unwrap_or(3000);
     let (quiet_outcome, quiet_latency) = match sc["quietAfterMs"].as_u64() {
